@@ -126,6 +126,11 @@ class EscJudge:
                 if ds and all(isinstance(d, ast.Call) and isinstance(d.func, ast.Attribute) and d.func.attr == "get" and isinstance(d.func.value, ast.Attribute)
                               and d.func.value.attr == "rules" for d in ds):
                     return None
+            if isinstance(fn, ast.Name):
+                # highlight = options.highlight; highlight(...): the callback read into a local
+                ds = self.defs.get(fn.id) or []
+                if ds and fn.id not in self.params and all(isinstance(d, ast.Attribute) and option_read_key(d) == "highlight" for d in ds):
+                    return None
             if isinstance(fn, ast.Attribute) and fn.attr == "escape" and U(fn.value) == "html":
                 return None
             # the highlight callback is documented as returning trusted, already escaped HTML
